@@ -12,7 +12,8 @@
 // of a single-record and of a multi-record baseline.
 // Local transport (local.go): the net.Conn under each endpoint is wrapped; every transport Write call of the writer fails
 // in turn (timeout / temporary / permanent / short write / expired write deadline) and the application closes or carries on;
-// the reader's transport times out at offsets inside and between records and the application retries.
+// the reader's transport times out at offsets inside and between records and the application retries; a healthy reader transport
+// answers with data+io.EOF in one call / (0, nil) / one byte per call.
 package main
 
 import (
@@ -33,13 +34,15 @@ func main() {
 			"faults on the writer->reader stream after the handshake, both directions, baseline A = writes {100,300,50} and baseline B = one write of 40000 bytes (multi-record): xor 01/80 at every byte (quick: A every 3rd byte inside bodies split between the directions; B header, first, middle, last byte of the first two/last two records) incl. headers, cut at a record boundary (clean EOF allowed: documented in readRecordOrCCS, same as crypto/tls) vs cut INSIDE a record (must be an error other than io.EOF), drop/dup/swap of every record, forged records with length field max+1 and 0xffff (must be record_overflow) and with the maximal legal length (any error), Read buffers {70000,1} (thorough +7, mixed), thorough: fault pairs. In every run what was read is a prefix of what was written and nothing from the faulted record on is delivered. distinct = fault cases whose edit was reached. " +
 			"LOCAL transport faults (the net.Conn under tls.Client/tls.Server is wrapped; the wire is never touched; runs are sequential: the writer finishes before the reader starts), both directions, same 8 (14) protection classes, baselines A {100,300,50} and B {40000}: " +
 			"(w) the k-th transport Write call of the data phase fails, for EVERY k of the baseline (every record of single-record, TLS 1.0 1/n-1 split, multi-record and TLS 1.3 writes, and close_notify) x error {timeout = *net.OpError(os.ErrDeadlineExceeded), temporary net.Error, permanent io.ErrClosedPipe, short write of 1 / 5 / len-1 bytes + timeout, short write of len/2 bytes + permanent; thorough + ECONNRESET and 4 more short-write shapes} x continuation {Close with the fault still in force, clear the fault then Close, clear the fault then Write the rest of the failed payload and every further payload (at least one) then Close}; plus, as the realistic origin, SetWriteDeadline(past) and SetDeadline(past) on the tls.Conn before every application Write (virtual deadlines) x the 3 continuations (reset with the zero time). Verdicts: the reader gets only a prefix of p1[:m1] p2[:m2].. with reported n_i <= m_i <= len(p_i); everything Write reported as written up to and including the failed call reaches the reader; a Write that returns nil during/after a failed transport write must reach the reader (success followed by bad_record_mac / truncation on an untouched wire is the writer corrupting its own stream). Whether later Writes fail (they all do: 'later-writes=all-fail') is an outcome. " +
-			"(r) the reader's transport has nothing more to give at offset d of record r (quick: d in {0,1,4,5,6,middle,last} of every record of A and of the first two/last two of B, {3,middle} of the others; thorough: every byte of A, first 24/last 16/every 512th of B) x {read deadline armed through SetReadDeadline expires (then extended, then removed), timeout returned together with the last bytes (n>0,err), temporary error, permanent error; at the middle of a record also two consecutive expiries and deadline+data} x Read buffer {70000,1} (thorough: at the edges and the middle of each record 9 kinds x {70000, 1, mixed with 3-byte transport reads, 7 with 3-byte transport reads}, the 4 basic kinds with the large buffer at every other byte), the application retries Read after each injected error: the stream must continue without loss or duplication (clean EOF requires every byte) or fail; recovered-intact vs failed are outcomes.")
+			"(r) the reader's transport has nothing more to give at offset d of record r (quick: d in {0,1,4,5,6,middle,last} of every record of A and of the first two/last two of B, {3,middle} of the others; thorough: every byte of A, first 24/last 16/every 512th of B) x {read deadline armed through SetReadDeadline expires (then extended, then removed), timeout returned together with the last bytes (n>0,err), temporary error, permanent error; at the middle of a record also two consecutive expiries and deadline+data} x Read buffer {70000,1} (thorough: at the edges and the middle of each record 9 kinds x {70000, 1, mixed with 3-byte transport reads, 7 with 3-byte transport reads}, the 4 basic kinds with the large buffer at every other byte), the application retries Read after each injected error: the stream must continue without loss or duplication (clean EOF requires every byte) or fail; recovered-intact vs failed are outcomes. " +
+			"(b) reader-side BEHAVIOURS of a healthy transport (io.Reader contract; nothing is faulty, nothing tampered), same baselines/directions/classes x Read buffer {70000,1} (B: 70000; thorough + 7, mixed): the last transport Read returns the final bytes of the stream TOGETHER with io.EOF, the final segment starting at offset d of record r (d in {0,1,4,5,6,middle,last} of the last record = close_notify and of the last data record, d = 0 of every earlier record; thorough: every byte of A and of B's close_notify, first 24 / last 16 / every 512th byte of B's last data record; the transport hands out at most what the TLS layer's buffer takes, the witness reports the size of the final segment); one (0, nil) answer at each of these positions; one byte per transport Read for the whole data phase. Verdict: exactly the written bytes, then io.EOF.")
 		c.Assume("independent record reference (opener AND sealer) transcribed from RFC 2246/4346/5246 6.2.3, RFC 5288, RFC 7905, RFC 8446 5.2-5.4/7.1/7.3 using crypto/aes, crypto/cipher, crypto/des, crypto/rc4, crypto/hmac, x/crypto/chacha20poly1305",
 			"plaintext bytes carried by the records before record k are measured by cutting the authentic stream at record k",
 			"records with at most 2^14 plaintext bytes: checked as wire length <= 2^14 + maximal expansion of the protection class AND number of records >= ceil(n/2^14) per Write",
 			"transport EOF exactly at a record boundary without close_notify may surface as io.EOF (zcrypto conn.go readRecordOrCCS comment, identical in GOROOT crypto/tls); anywhere inside a record it must not",
 			"the explicit nonce of RFC 5288 suites is the record sequence number (documented in halfConn.encrypt)",
-			"local transport faults: 'written' for a failed Write is anything between the reported n and the whole payload (a short transport write may be completed by the following bytes); Write success is what io.Writer reports (nil error); a transport whose Write failed wrote exactly the bytes it reported; deadlines are virtual (a non-zero time before 2000 has expired, later ones fire only where the plan says the transport blocks)")
+			"local transport faults: 'written' for a failed Write is anything between the reported n and the whole payload (a short transport write may be completed by the following bytes); Write success is what io.Writer reports (nil error); a transport whose Write failed wrote exactly the bytes it reported; deadlines are virtual (a non-zero time before 2000 has expired, later ones fire only where the plan says the transport blocks)",
+			"io.Reader contract: a Read may return n > 0 together with io.EOF at the end of the stream, and (0, nil) at any time; neither is an error of the transport")
 		if c.Replay != nil {
 			var w map[string]any
 			json.Unmarshal(c.Replay, &w)
